@@ -6,7 +6,7 @@
    - hence the outcome of loading_at / pressure_at after any history equals the outcome on a fresh object.
    spreading_pressure_at's range guard reads the cache (pointisotherm.py:1249): history dependence refuted with a witness. *)
 From Coq Require Import Reals Lra QArith Qreals ZArith String List Bool.
-From PG Require Import Lib.Num Lib.Py Lib.Tac Gen.UnitsGen1 Units.AdsOracle Gen.UnitsGen2 Iso.IsoState Gen.IsoGen Iso.IsoAccess.
+From PG Require Import Lib.Num Lib.Py Lib.Tac Gen.UnitsGen1 Units.AdsOracle Gen.UnitsGen2 Iso.IsoState Gen.IsoGen Iso.IsoAccess Gen.PurityGen.
 Import ListNotations.
 Open Scope list_scope.
 
@@ -284,20 +284,31 @@ Proof.
   - apply pressure_at_pure. - apply loading_at_pure. - apply spreading_pure.
 Qed.
 
-(* ------------------------------------------------------------------ deviations (witnesses computed on the rational instance) *)
-Definition q_state : iso QNum :=
-  mkIso QNum (Some "absolute"%string) (Some "bar"%string) (Some "molar"%string) (Some "mmol"%string) (Some "mass"%string) (Some "g"%string)
-        (Some "K"%string) (77 # 1) (@ads_const QNum None None None None None None) (mkMat QNum None None)
-        [1 # 1; 2 # 1; 3 # 1]%Q [1 # 1; 2 # 1; 3 # 1]%Q [false; false; false] None None.
-Definition outcome_code {A} (r : sres (iso QNum) (iso QNum * A)) : option exn := match r with SOk _ => None | SErr e _ => Some e end.
-(* spreading_pressure_at below the first measured pressure: a value on a fresh isotherm, CalculationError after any loading_at;
-   above the last pressure: ValueError when fresh, CalculationError after a loading_at *)
-Theorem spreading_guard_depends_on_history_refuted :
-  let fresh := q_state in
-  let used := res_state QNum (iso_loading_at QNum q_state [3 # 2]%Q (Some "ads"%string) (Some "linear"%string) (@FNone QNum) None None None None None None) in
-  obs QNum used = obs QNum fresh
-  /\ outcome_code (iso_spreading_outcome QNum fresh (1 # 2) (Some "ads"%string) (@FNone QNum) None None None None None None) = None
-  /\ outcome_code (iso_spreading_outcome QNum used (1 # 2) (Some "ads"%string) (@FNone QNum) None None None None None None) = Some CalculationError
-  /\ outcome_code (iso_spreading_outcome QNum fresh (4 # 1) (Some "ads"%string) (@FNone QNum) None None None None None None) = Some ValueError
-  /\ outcome_code (iso_spreading_outcome QNum used (4 # 1) (Some "ads"%string) (@FNone QNum) None None None None None None) = Some CalculationError.
-Proof. vm_compute. repeat split; reflexivity. Qed.
+(* ------------------------------------------------------------------ spreading_pressure_at: outcome independent of the history
+   (repaired in /repo by "fix: spreading_pressure_at range guard ..."; the guard used to read the cached interpolator) *)
+Definition out_unit (r : sres (iso RNum) (iso RNum * Datatypes.unit)) : option exn := match r with SOk _ => None | SErr e _ => Some e end.
+Lemma out_unit_of_loading_at (s : iso RNum) p b f pu pm lu lb mu mb :
+  out_unit (mbind (iso_loading_at RNum s [p] b (Some "linear"%string) f pu pm lu lb mu mb) (fun '(s1, _) => SOk (s1, tt)))
+  = match res_out RNum (iso_loading_at RNum s [p] b (Some "linear"%string) f pu pm lu lb mu mb) with Ok _ => None | Err e => Some e end.
+Proof. destruct (iso_loading_at RNum s [p] b (Some "linear"%string) f pu pm lu lb mu mb) as [[s1 v]|e s1]; reflexivity. Qed.
+Theorem spreading_outcome_history_independent (s : iso RNum) p b f pu pm lu lb mu mb :
+  l_cache_ok RNum s ->
+  out_unit (iso_spreading_outcome RNum s p b f pu pm lu lb mu mb) = out_unit (iso_spreading_outcome RNum (clear RNum s) p b f pu pm lu lb mu mb).
+Proof.
+  intro Hok. unfold iso_spreading_outcome. rewrite clear_pressure, clear_loading. unfold sbind.
+  destruct (iso_pressure RNum s b pu pm None) as [ps|]; [|reflexivity].
+  destruct (iso_loading RNum s b lu lb mu mb None); [|reflexivity].
+  destruct ps as [|p0 ps]; [reflexivity|].
+  destruct (_ && _); [reflexivity|]. destruct (Nat.eqb _ _); [reflexivity|].
+  rewrite !out_unit_of_loading_at. rewrite (loading_at_history_independent s [p] b (Some "linear"%string) f pu pm lu lb mu mb Hok). reflexivity.
+Qed.
+Theorem spreading_history_independent_reachable (s0 : iso RNum) (acts : list act) p b f pu pm lu lb mu mb :
+  let s := fold_left do_act acts (clear RNum s0) in
+  out_unit (iso_spreading_outcome RNum s p b f pu pm lu lb mu mb) = out_unit (iso_spreading_outcome RNum (clear RNum s) p b f pu pm lu lb mu mb).
+Proof. intro s. apply spreading_outcome_history_independent. exact (proj1 (cache_ok_reachable s0 acts)). Qed.
+
+(* ------------------------------------------------------------------ the analyses that are not modelled: a static census of the source
+   (Gen/PurityGen.v, regenerated on every run) of every place where a characterisation / IAST / fitting / export entry point calls a
+   mutating method on, or assigns into, an isotherm handed to it. There is none (Whittaker's in-place conversion, C04-F2, was repaired). *)
+Theorem no_analysis_mutates_its_argument : mutating_sites = [].
+Proof. reflexivity. Qed.
